@@ -5091,8 +5091,9 @@ class Entity(object, metaclass=EntityMeta):
                                                          "and 'cascade_delete' option of %s is not set"
                                                          % (obj, attr.name, attr))
                         elif isinstance(reverse, Set):
-                            if attr not in obj._vals_: continue
-                            val = get_val(attr)
+                            # the owner has to learn that the object leaves its collection, even if the reference
+                            # was not loaded yet
+                            val = get_val(attr) if attr in obj._vals_ else attr.load(obj)
                             if val is None: continue
                             reverse.reverse_remove((val,), obj, undo_funcs)
                         else: throw(NotImplementedError)
